@@ -17,11 +17,26 @@ Fmt = U.opaque("Fmt")
 InputCfg = U.union("InputCfg", dict(text=STR, files=Files))
 InputCfg.pykinds = {"str": "text"}
 
-split_of = M.opaque("split_of", [Fmt], Splitter, impl=None, note="fmtr.split (bound method)")
-parse = M.opaque("parse", [STR, Splitter], Tree, impl=None, note="tabparser.parse_to_tree(text, splitter) (proved in specs.tabparser for the indentation family)")
-aacl = M.opaque("aacl", [Tree, Acl], Tree, impl=None, note="patching.apply_acl(config, acl, fatal_acl=False) (proved in specs.patching; never raises in lenient mode)")
-fjoin = M.opaque("fjoin", [Fmt, Tree], STR, impl=None, note="fmtr.join(tree) (C04)")
-afc = M.opaque("afc", [Files, Acl], Files, impl=None, note="apply_acl_fileconfig (bounded only)")
+split_of = M.opaque("split_of", [Fmt], Splitter, impl=lambda f: f.split, note="fmtr.split (bound method)")
+def _parse_impl(text, splitter):
+    from annet.annlib import tabparser
+    return tabparser.parse_to_tree(text, splitter)
+
+
+def _aacl_impl(tree, acl):
+    from annet.annlib import patching
+    return patching.apply_acl(tree, acl, fatal_acl=False)
+
+
+def _afc_impl(files, acl):
+    from annet.annlib import filter_acl
+    return filter_acl.apply_acl_fileconfig(files, acl)
+
+
+parse = M.opaque("parse", [STR, Splitter], Tree, impl=_parse_impl, note="tabparser.parse_to_tree(text, splitter) (proved in specs.tabparser for the indentation family)")
+aacl = M.opaque("aacl", [Tree, Acl], Tree, impl=_aacl_impl, note="patching.apply_acl(config, acl, fatal_acl=False) (proved in specs.patching; never raises in lenient mode)")
+fjoin = M.opaque("fjoin", [Fmt, Tree], STR, impl=lambda f, t: f.join(t), note="fmtr.join(tree) (C04)")
+afc = M.opaque("afc", [Files, Acl], Files, impl=_afc_impl, note="apply_acl_fileconfig (bounded only)")
 
 
 def _fmt_attr(ex, recv, recv_node, args, kwargs, st, node):
@@ -37,9 +52,21 @@ M.contract(F, "<apply_acl>", params=dict(config=Tree, rules=Acl, fatal_acl=BOOL)
            ensures=["result == aacl(config, rules)"], properties=["C06"], note="specs.patching: lenient mode never raises")
 M.contract(F, "<apply_acl_fileconfig>", params=dict(fileconfig=Files, rules=Acl), ret=Files, trusted=True, ensures=["result == afc(fileconfig, rules)"],
            properties=["C06"], note="bounded only")
-M.contract(F, "filter_config", params=dict(acl=Acl, fmtr=Fmt, input_config=InputCfg), ret=InputCfg, locals=dict(),
-           ensures=["implies(isinstance(input_config, str), result == fjoin(fmtr, aacl(parse(input_config, split_of(fmtr)), acl)))",
-                    "implies(not isinstance(input_config, str), result == afc(input_config, acl))"],
+def _fc_inputs():
+    from annet.annlib import filter_acl, tabparser
+    texts = ["", "a 1\n", "interface e1\n  mtu 1\n  description x\ninterface e2\n  mtu 2\nsysname s\n", "b\n  c\n    d\n"]
+    acls = ["", "interface *\n    mtu *\n", "sysname *\ninterface e1\n    ~\n", "a *\nb\n    c\n        ~\n"]
+    for vendor, fmtr in (("huawei", tabparser.HuaweiFormatter()), ("cisco", tabparser.CiscoFormatter()), ("arista", tabparser.AristaFormatter())):
+        for a in acls:
+            acl = filter_acl.make_acl(a, vendor)
+            for t in texts:
+                yield dict(acl=acl, fmtr=fmtr, input_config=t)
+
+
+M.contract(F, "filter_config", params=dict(acl=Acl, fmtr=Fmt, input_config=InputCfg), ret=InputCfg, locals=dict(), inputs=_fc_inputs,
+           native_frame_skip=["acl"],
+           ensures=["(result == fjoin(fmtr, aacl(parse(input_config, split_of(fmtr)), acl))) if isinstance(input_config, str) else True",
+                    "True if isinstance(input_config, str) else (result == afc(input_config, acl))"],
            canaries=["result == input_config"], properties=["C06"],
            note="a text is parsed with the vendor's splitter, filtered in LENIENT mode (fatal_acl=False) and rendered again")
 M.contract(F, "filter_patch", params=dict(acl=Acl, fmtr=Fmt, text=STR), ret=STR,
